@@ -71,6 +71,24 @@ def r_table(ctx: Ctx, model, t: Tables):
                    sample={"rule": "R-table", "table": tabname, "unit": unit, "value": str(val.value()), "si": exp})
 
 
+def r_synonym(ctx: Ctx, model, t: Tables):
+    ctx.rule("R-synonym: unit names with the same SI definition carry exactly the same table value "
+             "(conversion between synonyms is the identity)")
+    for tabname, tab, ref in (("_PRESSURE_UNITS", t.pressure, SI_PRESSURE), ("_MOLAR_UNITS", t.molar, SI_MOLAR),
+                              ("_MASS_UNITS", t.mass, SI_MASS), ("_VOLUME_UNITS", t.volume, SI_VOLUME)):
+        groups = {}
+        for unit in tab:
+            groups.setdefault(ref[unit], []).append(unit)
+        for val, units in groups.items():
+            if len(units) < 2:
+                continue
+            vals = {str(tab[u].value()) for u in units}
+            ctx.ob(len(vals) == 1, Finding("C01.R-synonym", where_const(model, CU, tabname), f"{tabname}|{'='.join(sorted(units))}",
+                                           f"{tabname}: the synonyms {units} have different factors "
+                                           f"{ {u: str(tab[u].value()) for u in units} }: converting between them is not the identity"),
+                   nontrivial_key=("synonym", tabname, tuple(units)))
+
+
 def r_struct(ctx: Ctx, model, t: Tables):
     ctx.rule("R-struct: absolute->pressure table; mass/volume_*/molar->their tables; relative/fraction/percent->None")
     exp_p = {"absolute": t.pressure, "relative": None, "relative%": None}
@@ -393,6 +411,7 @@ def run(ctx: Ctx):
                                  "c_temperature", "Adsorbate.saturation_pressure/molar_mass/liquid_density/"
                                  "liquid_molar_density/gas_density/gas_molar_density/backend", "Material.density/molar_mass"]
     r_table(ctx, model, t)
+    r_synonym(ctx, model, t)
     r_struct(ctx, model, t)
     r_shape(ctx, model)
     r_material_props(ctx, model, I)
